@@ -264,10 +264,26 @@ def _rm_gen(base):
     except OSError: pass
 
 
+class _Watchdog:
+    """a translator that does not come back within the limit is a translator that cannot read the source (ParseError), not a hang"""
+    def __init__(self, seconds): self.seconds = seconds
+    def __enter__(self):
+        import signal, threading, rustmini
+        self.active = threading.current_thread() is threading.main_thread()
+        if self.active:
+            def boom(signum, frame): raise rustmini.ParseError("translator did not finish within %d s" % self.seconds)
+            self.old = signal.signal(signal.SIGALRM, boom); signal.alarm(self.seconds)
+    def __exit__(self, *a):
+        import signal
+        if self.active:
+            signal.alarm(0); signal.signal(signal.SIGALRM, self.old)
+        return False
+
+
 def gen_sources():
     """Translators for tabular source, regenerated from the repository on every run."""
     import gen_constants, gen_accessors, gen_formulas, gen_streams, gen_ops, rustmini
-    with Lock("gen" + repo_tag()):
+    with Lock("gen" + repo_tag()), _Watchdog(300):
         items, n_all = gen_constants.main(REPO, gen_dir())
         accs, ctors = gen_accessors.main(REPO, gen_dir())
         try:
@@ -336,7 +352,7 @@ def compile_gen_theorems(name, extra_gen=()):
                     if p.returncode != 0:
                         return False, p.stdout
             open(stamp, "w").write(base)
-    p = sh("timeout 1800 coqc -Q theories RRTK -Q %s Gen -w -all gen_theorems/%s.v" % (g, name), cwd=COQ, check=False, timeout=1900)
+    p = sh("timeout 900 coqc -Q theories RRTK -Q %s Gen -w -all gen_theorems/%s.v" % (g, name), cwd=COQ, check=False, timeout=1000)
     if p.returncode == 0:
         tmp = cfile + ".%d" % os.getpid()
         open(tmp, "w").write(p.stdout); os.replace(tmp, cfile)
